@@ -445,6 +445,17 @@ def run(ctx):
             reg = added[-1].elts[1]
             cur = symex.subst(ast.Name(id=cmpvar, ctx=ast.Load()), cs.env)
             path = ' & '.join(cs.cond_src())[-100:]
+            # the pair is registered exactly when that PAIR is not known yet (not merely its closing character)
+            atoms_ = {(unparse(a_), ap_) for t_, p_ in cs.conds for a_, ap_ in symex._atoms(t_, p_)}
+            ptxt = unparse(added[-1])
+            okm = any((ap_ and t_.startswith(ptxt + ' not in ') and 'latex_group_delimiters' in t_) or
+                      ((not ap_) and t_.startswith(ptxt + ' in ') and 'latex_group_delimiters' in t_) for t_, ap_ in atoms_)
+            ctx.decide('R16h', okm, w, cs.node, 'the pair %s is added when that pair is not among the group delimiters' % ptxt,
+                       'on the path [%s] the pair %s is added under another test than `%s not in <state>.latex_group_delimiters`: '
+                       'when the closing character already closes ANOTHER pair of the state ((\'[\', \']\') known, stop at '
+                       '(\'(\', \']\')), the opening character is never made a delimiter, nested groups are lost and the '
+                       'collection stops at the first closer -- unlike the equivalent LatexGeneralNodesParser call'
+                       % (path, ptxt, ptxt), construct='get_latex_nodes: pair membership test [%s]' % path[-60:])
             ctx.decide('R16h', unparse(reg) == unparse(cur), w, cs.node,
                        'the closing delimiter registered as group delimiter (%s) is the value the stop '
                        'condition compares tok.arg with' % short(reg),
@@ -707,6 +718,40 @@ def run(ctx):
     from . import c02 as _c02
     from .. import core as _core2
     _core2.run_proxied(ctx, _c02, 'R16y', ('R02j',))
+
+    # ---- R16z: the environment name that is checked is the one that was written
+    ctx.rule('R16z', 'get_latex_environment compares the requested name with the node\'s own environmentname (what the source '
+                     'says), not with a name taken from the specification: an environment without a specification of its own '
+                     'gets the catch-all specification, whose name is empty', 1)
+    n_en = 0
+    for q_, f_ in sorted(w.functions.items()):
+        if 'environmentname' not in [a_.arg for a_ in f_.args.args] or 'get_latex_environment' not in q_ and 'environment' not in q_:
+            continue
+        defs_ = {}
+        for a_ in iter_own(f_):
+            if isinstance(a_, ast.Assign) and len(a_.targets) == 1 and isinstance(a_.targets[0], ast.Name):
+                defs_.setdefault(a_.targets[0].id, []).append(a_.value)
+        for c_ in iter_own(f_):
+            if not (isinstance(c_, ast.Compare) and len(c_.ops) == 1 and isinstance(c_.ops[0], (ast.NotEq, ast.Eq))):
+                continue
+            sides = [c_.left, c_.comparators[0]]
+            if not any(isinstance(x_, ast.Name) and x_.id == 'environmentname' for x_ in sides):
+                continue
+            other = [x_ for x_ in sides if not (isinstance(x_, ast.Name) and x_.id == 'environmentname')][0]
+            if isinstance(other, ast.Constant):
+                continue
+            if isinstance(other, ast.Name) and len(defs_.get(other.id, [])) == 1:
+                other = defs_[other.id][0]
+            n_en += 1
+            txt = unparse(other)
+            ctx.decide('R16z', txt.endswith('.environmentname') and '.spec' not in txt, w, c_,
+                       'requested name compared with %s' % txt,
+                       '%s compares the requested environment name with %s, not with the environmentname of the parsed node: '
+                       'for an environment the context has no specification for, the specification is the catch-all one (name '
+                       '\'\') and get_latex_environment(pos, environmentname=\'mybox\') raises although the source says '
+                       '\\begin{mybox}' % (q_, txt), construct='%s: environment name check' % q_)
+    if not n_en:
+        ctx.unknown('R16z', w, None, 'comparison with the requested environment name not found', construct='environment name check')
 
     # ---- R16w: the fixed options of the parser a shim builds
     ctx.rule('R16w', 'the constant options a legacy method passes to the parser it builds (other than values equal to the '
